@@ -33,3 +33,7 @@ def comment_ws_normaliser(rid, rule):
         return True
     g = set(getattr(rule, "groups", ()) or ())
     return False
+
+
+def trailing_only_removers():
+    return set(_load()["always"])
